@@ -74,10 +74,20 @@ impl CaseReport {
         }
     }
     pub fn violation(labels: Vec<String>, nontrivial: bool, msg: impl Into<String>) -> Self {
+        let msg = msg.into();
+        // a foreign process holding one of the loopback ports of a test server is interference from the
+        // environment, not behaviour of the code under test: such a case is discarded (counted), never reported
+        if msg.contains("Address already in use") || msg.contains("AddrInUse") {
+            return Self {
+                labels: vec!["discarded_port_taken_by_foreign_process".into()],
+                nontrivial: false,
+                verdict: Verdict::Discard(msg),
+            };
+        }
         Self {
             labels,
             nontrivial,
-            verdict: Verdict::Violation(msg.into()),
+            verdict: Verdict::Violation(msg),
         }
     }
 }
@@ -518,13 +528,20 @@ pub fn write_evidence(ctx: &Ctx, stats: &Stats, fin: &Finish, violations: u64) {
 pub fn finish<T: Serialize>(ctx: &Ctx, stats: &Stats, fin: Finish, failure: Option<Failure<T>>) -> i32 {
     let known = stats.known.lock().unwrap().clone();
     let findings = open_findings(&ctx.id);
+    // one line per listed open finding, whether or not this run reached it
+    for k in &findings {
+        let n = known.get(&k.signature).copied().unwrap_or(0);
+        let what: String = k.what.chars().take(600).collect();
+        if n > 0 {
+            println!("KNOWN-FINDING: property={} {} [{}; hit {} times]", ctx.id, what, k.signature, n);
+        } else {
+            println!("KNOWN-FINDING: property={} {} [{}; not reached in this run]", ctx.id, what, k.signature);
+        }
+    }
     for (sig, n) in &known {
-        let what = findings
-            .iter()
-            .find(|k| &k.signature == sig)
-            .map(|k| k.what.clone())
-            .unwrap_or_default();
-        println!("KNOWN-FINDING: property={} {} [{}; hit {} times]", ctx.id, what, sig, n);
+        if !findings.iter().any(|k| &k.signature == sig) {
+            println!("KNOWN-FINDING: property={} [{}; hit {} times]", ctx.id, sig, n);
+        }
     }
     let total = stats.evaluations.load(Ordering::Relaxed);
     let disc = stats.discarded.load(Ordering::Relaxed);
@@ -559,6 +576,7 @@ pub fn finish<T: Serialize>(ctx: &Ctx, stats: &Stats, fin: Finish, failure: Opti
 
 /// Replay epilogue: run one stored case strictly.
 pub fn finish_replay(ctx: &Ctx, rep: CaseReport, path: &Path) -> i32 {
+    println!("replay labels: {:?} nontrivial={}", rep.labels, rep.nontrivial);
     match rep.verdict {
         Verdict::Violation(m) => {
             println!("violation detail: {}", m);
